@@ -113,7 +113,7 @@ def run_job(spec, ctx):
         if d is not None and z3.is_rational_value(d) and d.numerator_as_long() == 0:
             ctx.ob('total == 0', 'syntactic')
             continue
-        r, m = eng.check(neg, timeout=spec.get('qt', 60000))
+        r, m = eng.check(neg, timeout=spec.get('qt', 60000 if spec.get('budget', 0) < 500 else 200000))
         cand = None
         if r == 'sat':
             cands = [{'inputs': inp, 'model': key, 'shape': list(shape), 'ranks': list(ranks)}
